@@ -41,6 +41,10 @@ def cases(tier, seed):
                 out.append({"kind": "core-switch", "first": a, "second": b, "doc": "wrappers"})
                 if tier != "quick":
                     out.append({"kind": "core-switch", "first": a, "second": b, "doc": "codes"})
+    for fs in ("ancestor-symlink", "root-symlink", "root-dotdot", "root-relative"):
+        for o, c in (("acme.api", None), ("acme.api", "acme.core"), ("acme.api", "api_core"), ("cli", None)):
+            for dn in (("petstore", "unions") if tier == "quick" else docs.names()):
+                out.append({"kind": "fs-layout", "fs": fs, "out": o, "core": c, "doc": dn})
     for c in c01.cases(tier, seed):
         if c["kind"] == "graph":
             if tier == "quick" and c["menu"] != "prefix":
@@ -59,10 +63,33 @@ def shipped_core_dir():
     return os.path.join(os.path.dirname(os.path.abspath(pyopenapi_gen.__file__)), "core")
 
 
-def check_project(doc, out_pkg="cli", core_pkg=None, naming="operationId", stale=None):
+def check_project(doc, out_pkg="cli", core_pkg=None, naming="operationId", stale=None, fs=None):
     with sandbox.scratch() as d:
         root = os.path.join(d, "proj")
-        files, err = sandbox.generate(doc, root, output_package=out_pkg, core_package=core_pkg, naming=naming)
+        gen_root = root
+        cwd = None
+        # filesystem layouts of the project root (the emitted code may not depend on how the root is spelled or linked)
+        if fs == "ancestor-symlink":      # <root>/<top package> is a symlink to a directory outside the project root
+            top = out_pkg.split(".")[0]
+            os.makedirs(os.path.join(d, "vendor", top + "_src"))
+            os.makedirs(root)
+            os.symlink(os.path.join("..", "vendor", top + "_src"), os.path.join(root, top))
+        elif fs == "root-symlink":        # the project root itself is a symlink
+            os.makedirs(os.path.join(d, "real"))
+            os.symlink("real", root)
+        elif fs == "root-dotdot":         # the project root is given with a .. component
+            os.makedirs(os.path.join(root, "x"))
+            gen_root = os.path.join(root, "x", "..")
+        elif fs == "root-relative":       # the project root is given relative to the working directory
+            os.makedirs(root)
+            cwd = os.getcwd()
+            os.chdir(d)
+            gen_root = "proj"
+        try:
+            files, err = sandbox.generate(doc, gen_root, output_package=out_pkg, core_package=core_pkg, naming=naming)
+        finally:
+            if cwd is not None:
+                os.chdir(cwd)
         if err is not None:
             return None
         if stale is not None:
@@ -132,6 +159,12 @@ def run_case(case):
             sandbox.generate(doc, os.path.join(d0, "proj"), output_package=out_pkg, core_package=case["first"], reset=False)
         label = f"core-switch|{case['doc']}|out={out_pkg}|first={case['first']}|second={case['second']}"
         r = check_project(doc, out_pkg, case["second"])
+    elif k == "fs-layout":
+        doc = docs.get(case["doc"])
+        label = f"fs-layout|{case['fs']}|{case['doc']}|out={case['out']}|core={case['core']}"
+        r = check_project(doc, case["out"], case["core"], fs=case["fs"])
+        if r is not None and r[1] == 0:
+            raise HarnessError("fs-layout: no emitted file was scanned")
     elif k == "stale-core":
         doc = docs.get("petstore")
         label = f"stale-core|core={case['core']}|second_client={case['second_client']}|tamper={case['tamper']}"
